@@ -11,7 +11,8 @@ def check(F, rep):
     rep.clause("the QUIC-facing sender never reports a send error or Pending for a single datagram: every return is Poll::Ready(Ok(())) except the propagated `socket closed` error, which is only built when the socket is closed")
     rep.clause("a synthetic address that is unknown to its address map is dropped without reaching any transport; the endpoint-id (Mixed) kind is handed to the per-remote actor and never to a transport directly; each mapped kind is resolved through its own map into its own FourTuple kind")
     rep.clause("TransportsSender::poll_send: each FourTuple kind only reaches senders of its own transport kind; with no usable sender the datagram is blackholed with Ready(Ok)")
-    rep.undecided("IP routing among several bound sockets (longest prefix, default route, scope id): pure predicates over address values")
+    rep.clause("IP socket selection, as a table of relations (not values): with a source address a socket matches only through `wildcard(ip_net.addr()) || ip_net.addr() == src`; without one only through `ip_net.contains(dst.ip())` or (link-local v6) `scope_id == dst.scope_id()`; the default-route predicate depends on nothing but `is_default` and the family; the specific sockets of the destination's family are searched first (sorted by descending prefix length at bind time), the family's default-route socket is consulted only when none matched")
+    rep.undecided("that ipnet's contains()/addr() and std's is_unspecified()/is_unicast_link_local() compute what their names say; exhaustive evaluation over address values")
     fs = F.fns_named(UDP)
     if len(fs) != 1:
         cands = [g for g in F.find(r"^<iroh::socket::transports::Sender as .*UdpSender>::poll_send$")]
@@ -101,3 +102,242 @@ def check(F, rep):
         rets = returns_of(body)
         tail = [b for b, i, rv in rets if i is not None and agg_shape(body, rv, 2).startswith("Poll::Ready(Result::Ok")]
         rep.ob("dispatch", len(tail) >= 1, site(body), "without a usable sender the datagram is blackholed with Poll::Ready(Ok(()))", "TransportsSender::poll_send|blackhole")
+
+    ip_routing(F, rep, body)
+
+
+IPC = "iroh::socket::transports::ip::"
+
+
+def _opt_regions(f, arg):
+    """(some_region, none_region) of the `match <arg>` on an Option argument."""
+    for b in sorted(f.reachable(0)):
+        t = f.blocks[b]["t"]
+        if t["k"] != "switch":
+            continue
+        l = op_local(t["d"])
+        for st in f.blocks[b]["s"]:
+            if st["k"] == "a" and st["lhs"]["l"] == l and st["rv"]["k"] == "discr" and st["rv"]["p"]["l"] == arg and not st["rv"]["p"].get("p"):
+                tg = dict((int(v), x) for v, x in t["targets"])
+                some = tg.get(1, t["otherwise"])
+                none = tg.get(0, t["otherwise"])
+                return b, arm_region(f, b, some), arm_region(f, b, none)
+    return None, set(), set()
+
+
+def ip_routing(F, rep, body):
+    # ---- Config::is_valid_send_addr: relation table
+    f = get_fn(F, rep, IPC + "Config::is_valid_send_addr")
+    sb, S, N = _opt_regions(f, 2)
+    rep.ob("ip-table", sb is not None and bool(S) and bool(N), site(f), "is_valid_send_addr distinguishes `with source` from `without source`", skey(F, f, "src-split"))
+    if sb is None:
+        return
+    ADDR, UNSPEC, EQ = r"Ipv[46]Net::addr$", r"Ipv[46]Addr::is_unspecified$", r"cmp::PartialEq::(eq|ne)$"
+    IP, CONT, LL, SCOPE = r"SocketAddrV[46]::ip$", r"Ipv[46]Net::contains$", r"Ipv6Addr::is_unicast_link_local$", r"SocketAddrV6::scope_id$"
+
+    def srcs(o):
+        l = op_base(o)
+        return copy_sources(f, l) if l is not None else set()
+
+    def is_addr_of_net(o):
+        x = srcs(o)
+        if not x or not all(y[0] == "call" and re.search(ADDR, y[1]) for y in x):
+            return False
+        l = op_base(o)
+        du = defuse(f)
+        for cb, ct in du.origin_calls(l):
+            if call_matches(ct, ADDR) and srcs(ct["args"][0]) != {("arg", 1, ("ip_net",))}:
+                return False
+        return True
+
+    # with a source address
+    other = [(b, t) for b, t in calls_in(f, S) if not (call_matches(t, ADDR) or call_matches(t, UNSPEC) or call_matches(t, EQ))]
+    rep.ob("ip-table", not other, site(f, other[0][0] if other else sb),
+           "with a source address the socket's net is related to it only through addr()/is_unspecified()/== (a socket bound to 192.168.1.5/24 must not claim source 192.168.1.77); other operations: %s" % sorted({callee_names(t)[0] for b, t in other}), skey(F, f, "src-exact-match"))
+    eqs = [(b, t) for b, t in calls_in(f, S) if call_matches(t, EQ)]
+    rep.floor("ip-table", "source equality tests (v4, v6)", len(eqs), 2)
+    for b, t in eqs:
+        a0, a1 = t["args"][0], t["args"][1]
+        pair = (is_addr_of_net(a0) and all(x[0] == "arg" and x[1] == 2 for x in srcs(a1)) and bool(srcs(a1))) or \
+               (is_addr_of_net(a1) and all(x[0] == "arg" and x[1] == 2 for x in srcs(a0)) and bool(srcs(a0)))
+        rep.ob("ip-table", pair and callee_names(t)[0].endswith("::eq"), site(f, b), "the equality compares ip_net.addr() with the datagram's source address", skey(F, f, "eq-operands"))
+    uns = [(b, t) for b, t in calls_in(f, S) if call_matches(t, UNSPEC)]
+    rep.floor("ip-table", "wildcard tests (v4, v6)", len(uns), 2)
+    utests = []
+    for b, t in uns:
+        rep.ob("ip-table", is_addr_of_net(t["args"][0]), site(f, b), "the wildcard test is on the bound address ip_net.addr()", skey(F, f, "wildcard-operand"))
+        utests.append(call_result_tests(f, b, family="bool")[0])
+    for b, i, rv in returns_of(f):
+        if b not in S:
+            continue
+        if i is None:
+            ok = call_matches(rv, EQ)
+            why = "result of ==" if ok else "result of %s" % callee_names(rv)[0]
+        elif rv["k"] == "use" and rv["o"]["k"] == "const":
+            v = str(rv["o"].get("v"))
+            if "true" in v:
+                ok = any(requires(f, b, ts) for ts in utests)
+                why = "`true` only for a wildcard-bound socket"
+            else:
+                ok, why = True, "false"
+        else:
+            ok, why = False, "computed value (%s)" % rv["k"]
+        rep.ob("ip-table", ok, site(f, b), "with a source: answer is %s" % why, skey(F, f, "src-answer"))
+    # without a source address
+    other = [(b, t) for b, t in calls_in(f, N) if not any(call_matches(t, r) for r in (IP, CONT, LL, SCOPE))]
+    rep.ob("ip-table", not other, site(f, other[0][0] if other else sb), "without a source the destination is related to the socket only through contains()/link-local scope; other operations: %s" % sorted({callee_names(t)[0] for b, t in other}), skey(F, f, "dst-relations"))
+    cont = [(b, t) for b, t in calls_in(f, N) if call_matches(t, CONT)]
+    rep.floor("ip-table", "destination containment tests (v4, v6)", len(cont), 2)
+    ctests = []
+    for b, t in cont:
+        recv_ok = srcs(t["args"][0]) == {("arg", 1, ("ip_net",))}
+        x = srcs(t["args"][1])
+        dst_ok = bool(x) and all(y[0] == "call" and re.search(IP, y[1]) for y in x)
+        if dst_ok:
+            for cb, ct in defuse(f).origin_calls(op_base(t["args"][1])):
+                if call_matches(ct, IP):
+                    dst_ok = dst_ok and all(y[0] == "arg" and y[1] == 3 for y in srcs(ct["args"][0]))
+        rep.ob("ip-table", recv_ok and dst_ok, site(f, b), "containment is tested between the socket's ip_net and the destination's ip", skey(F, f, "contains-operands"))
+        if t["dest"]["l"] != 0:
+            ctests.append(call_result_tests(f, b, family="bool")[0])
+    lls = [call_result_tests(f, b, family="bool")[0] for b, t in calls_in(f, N) if call_matches(t, LL)]
+    scope_eq = []
+    for b, st, ts in cmp_tests(f, ops=("Eq",)):
+        if b in N:
+            a, c = srcs(st["rv"]["a"]), srcs(st["rv"]["b"])
+            both = [a, c]
+            fld = any(x == {("arg", 1, ("scope_id",))} for x in both)
+            call = any(x and all(y[0] == "call" and re.search(SCOPE, y[1]) for y in x) for x in both)
+            if fld and call:
+                scope_eq.append(ts)
+    for b, i, rv in returns_of(f):
+        if b not in N:
+            continue
+        if i is None:
+            ok = call_matches(rv, CONT)
+            why = "result of contains()" if ok else "result of %s" % callee_names(rv)[0]
+        elif rv["k"] == "use" and rv["o"]["k"] == "const":
+            v = str(rv["o"].get("v"))
+            if "true" in v:
+                ok = any(requires(f, b, ts) for ts in ctests) or (any(requires(f, b, ts) for ts in lls) and any(requires(f, b, ts) for ts in scope_eq))
+                why = "`true` only if the net contains the destination, or link-local destination on the socket's scope"
+            else:
+                ok, why = True, "false"
+        else:
+            ok, why = False, "computed value (%s)" % rv["k"]
+        rep.ob("ip-table", ok, site(f, b), "without a source: answer is %s" % why, skey(F, f, "dst-answer"))
+    # ---- Config::is_valid_default_addr depends on is_default only
+    g = get_fn(F, rep, IPC + "Config::is_valid_default_addr")
+    n_def = 0
+    for b, i, rv in returns_of(g):
+        if i is None:
+            ok, why = False, "a call result"
+        elif rv["k"] == "use" and rv["o"]["k"] == "const":
+            ok, why = "false" in str(rv["o"].get("v")), "constant %s" % rv["o"].get("v")
+        elif rv["k"] == "use":
+            x = copy_sources(g, op_base(rv["o"]))
+            ok, why = x == {("arg", 1, ("is_default",))}, "copy of %s" % sorted(map(str, x))
+            n_def += ok
+        else:
+            ok, why = False, rv["k"]
+        rep.ob("ip-table", ok, site(g, b), "default-route predicate answers with the socket's is_default flag or false: %s" % why, skey(F, g, "default-answer"))
+    rep.floor("ip-table", "is_default answers (v4/v6 x with/without source)", n_def, 4)
+    rep.ob("ip-table", not list(g.calls()), site(g), "no other computation in the default-route predicate", skey(F, g, "default-pure"))
+    # thin forwarders on IpSender
+    for nm in ("is_valid_send_addr", "is_valid_default_addr"):
+        h = get_fn(F, rep, IPC + "IpSender::" + nm)
+        cs = [(b, t) for b, t in h.calls()]
+        ok = len(cs) == 1 and is_call_to(cs[0][1], IPC + "Config::" + nm) and cs[0][1]["dest"]["l"] == 0
+        if ok:
+            t = cs[0][1]
+            ok = copy_sources(h, op_base(t["args"][0])) == {("arg", 1, ("config",))} and copy_sources(h, op_base(t["args"][1])) == {("arg", 2, ())} and copy_sources(h, op_base(t["args"][2])) == {("arg", 3, ())}
+        rep.ob("ip-table", ok, site(h), "IpSender::%s forwards (config, src, dst) unchanged to Config::%s" % (nm, nm), skey(F, h, "forwarder"))
+    # ---- selection order in TransportsSender::poll_send
+    du = defuse(body)
+    for fam in ("v4", "v6"):
+        it = find_calls(body, IPC + "IpTransportsSender::%s_iter_mut" % fam)
+        df = find_calls(body, IPC + "IpTransportsSender::%s_default_mut" % fam)
+        rep.exact("ip-order", "%s_iter_mut / %s_default_mut calls" % (fam, fam), (len(it), len(df)), (1, 1))
+        if not (it and df):
+            continue
+        finds = [(b, t) for b, t in find_calls(body, "core::iter::traits::iterator::Iterator::find") if it[0][1]["dest"]["l"] in du.closure(op_base(t["args"][0]))]
+        rep.exact("ip-order", "find() over the %s sockets" % fam, len(finds), 1)
+        if not finds:
+            continue
+        fb, ft = finds[0]
+        fts, _ = call_result_tests(body, fb)
+        # the predicate closure
+        cl = str(body.locals[op_base(ft["args"][1])])
+        preds = [c for c in F.tree(body) if c is not body and c.kind == "Closure" and (":%d:" % c.line) in cl]
+        okp = False
+        for c in preds:
+            cc = list(c.calls())
+            okp = len(cc) == 1 and is_call_to(cc[0][1], IPC + "IpSender::is_valid_send_addr") and cc[0][1]["dest"]["l"] == 0
+        rep.ob("ip-order", okp, site(body, fb), "the %s sockets are filtered by IpSender::is_valid_send_addr (and nothing else)" % fam, skey(F, body, "find-pred-" + fam))
+        db = df[0][0]
+        rep.ob("ip-order", requires_failure(body, db, fts), site(body, db), "the %s default-route socket is consulted only after no bound socket matched" % fam, skey(F, body, "default-after-" + fam))
+        dts, _ = call_result_tests(body, db)
+        vd = [(b, t) for b, t in find_calls(body, IPC + "IpSender::is_valid_default_addr") if requires(body, b, dts)]
+        rep.exact("ip-order", "is_valid_default_addr on the %s default socket" % fam, len(vd), 1)
+        sends = [(b, t) for b, t in find_calls(body, IPC + "IpSender::poll_send")]
+        first = [(b, t) for b, t in sends if requires(body, b, fts)]
+        second = [(b, t) for b, t in sends if requires_failure(body, b, fts) and requires(body, b, dts)]
+        rep.ob("ip-order", len(first) == 1 and len(second) == 1, site(body, fb), "one send on the matched %s socket, one on the default socket (%d/%d)" % (fam, len(first), len(second)), skey(F, body, "sends-" + fam))
+        if vd and second:
+            vts, _ = call_result_tests(body, vd[0][0], family="bool")
+            rep.ob("ip-order", requires(body, second[0][0], vts), site(body, second[0][0]), "the default-route socket is used only if is_valid_default_addr holds", skey(F, body, "default-guard-" + fam))
+        if first:
+            x = copy_sources(body, op_base(first[0][1]["args"][0]))
+            rep.ob("ip-order", bool(x) and all(y[0] == "call" and y[1].endswith("Iterator::find") for y in x), site(body, first[0][0]), "the datagram is sent on the socket find() returned: %s" % sorted(map(str, x)), skey(F, body, "send-on-found-" + fam))
+        if second:
+            x = copy_sources(body, op_base(second[0][1]["args"][0]))
+            rep.ob("ip-order", bool(x) and all(y[0] == "call" and y[1].endswith("%s_default_mut" % fam) for y in x), site(body, second[0][0]), "the fallback send is on the %s default-route socket: %s" % (fam, sorted(map(str, x))), skey(F, body, "send-on-default-" + fam))
+    # the destination's family selects the family of sockets
+    fam_sw = []
+    for b in sorted(body.reachable(0)):
+        t = body.blocks[b]["t"]
+        if t["k"] != "switch":
+            continue
+        l = op_local(t["d"])
+        for st in body.blocks[b]["s"]:
+            if st["k"] == "a" and st["lhs"]["l"] == l and st["rv"]["k"] == "discr":
+                ty = str(body.locals[st["rv"]["p"]["l"]]).replace("&", "").replace("mut ", "").strip()
+                if ty.endswith("SocketAddr") and all(e[0] == "deref" for e in st["rv"]["p"].get("p", [])):
+                    src = copy_sources(body, st["rv"]["p"]["l"])
+                    if any("remote" in x[-1] for x in src if x[0] in ("arg", "place")):
+                        fam_sw.append((b, dict((int(v), x) for v, x in t["targets"]), t["otherwise"]))
+    rep.exact("ip-order", "match on the destination's address family", len(fam_sw), 1)
+    if fam_sw:
+        b, tg, oth = fam_sw[0]
+        for fam, d in (("v4", 0), ("v6", 1)):
+            reg = arm_region(body, b, tg.get(d, oth))
+            mine = [cb for cb, ct in calls_in(body, reg) if call_matches(ct, r"IpTransportsSender::%s_(iter|default)_mut$" % fam)]
+            foreign = [cb for cb, ct in calls_in(body, reg) if call_matches(ct, r"IpTransportsSender::v[46]_(iter|default)_mut$") and cb not in mine]
+            rep.ob("ip-order", len(mine) == 2 and not foreign, site(body, tg.get(d, oth)), "a %s destination is only offered to %s sockets" % (fam, fam), skey(F, body, "family-" + fam))
+    # family accessors read their own family's list
+    for fam in ("v4", "v6"):
+        a = get_fn(F, rep, IPC + "IpTransportsSender::%s_iter_mut" % fam)
+        fr = {fld for _, fld in defuse(a).field_reads(0)} if hasattr(defuse(a), "field_reads") else set()
+        rep.ob("ip-order", fam in fr and ({"v4", "v6"} - {fam}).isdisjoint(fr), site(a), "%s_iter_mut iterates the %s list: %s" % (fam, fam, sorted(fr)), skey(F, a, "family-list"))
+        dmt = get_fn(F, rep, IPC + "IpTransportsSender::%s_default_mut" % fam)
+        fr = {fld for _, fld in defuse(dmt).field_reads(0)}
+        rep.ob("ip-order", {fam, "default_%s_index" % fam} <= fr and not ({"v4", "v6", "default_v4_index", "default_v6_index"} - {fam, "default_%s_index" % fam}) & fr, site(dmt), "%s_default_mut indexes the %s list with default_%s_index: %s" % (fam, fam, fam, sorted(fr)), skey(F, dmt, "family-default"))
+    # ---- bind: sorted by descending prefix length; default index computed after sorting
+    bd = [x for x in F.tree_of(IPC + "IpTransports::bind")]
+    bf = max(bd, key=lambda x: len(x.blocks))
+    rep.fn(bf)
+    sorts = find_calls(bf, regex=r"slice::.*sort_by_key$|sort_by_key$")
+    rep.exact("ip-order", "sort_by_key calls in IpTransports::bind", len(sorts), 2)
+    for b, t in sorts:
+        cl = str(bf.locals[op_base(t["args"][1])])
+        ks = [c for c in F.tree(bf) if c is not bf and c.kind == "Closure" and (":%d:" % c.line) in cl]
+        ok = False
+        for c in ks:
+            names = [callee_names(ct)[0] for cb, ct in c.calls()]
+            rev = any(rv["k"] == "agg" and "Reverse" in str(rv.get("adt")) for cb, i, rv in [(x, y, z["rv"]) for x, y, z in c.stmts() if z["k"] == "a"])
+            ok = ok or (any(n.endswith("Config::prefix_len") for n in names) and rev)
+        rep.ob("ip-order", ok, site(bf, b), "bound sockets are sorted by Reverse(prefix_len): longest prefix is found first", skey(F, bf, "sort-desc"))
+    poss = find_calls(bf, regex=r"Iterator::position$")
+    rep.exact("ip-order", "default index computations", len(poss), 2)
+    for b, t in poss:
+        rep.ob("ip-order", all(bf.dominates(sb_, b) for sb_, _ in sorts), site(bf, b), "the default-route index is computed after sorting (it indexes the sorted list)", skey(F, bf, "index-after-sort"))
